@@ -218,10 +218,12 @@ func (b *Broker) faultsFor(p *Packet) []int {
 	if f.AckLost {
 		alts = append(alts, fAckLost)
 	}
-	if f.Silent {
+	// "answer withheld" only makes sense for packets that are answered (a QoS 0 PUBLISH is not)
+	answered := !(p.Type == PUBLISH && p.QoS == 0)
+	if f.Silent && answered {
 		alts = append(alts, fSilent)
 	}
-	if f.SilentDrop {
+	if f.SilentDrop && answered {
 		alts = append(alts, fSilentDrop)
 	}
 	if f.GoSilent {
@@ -287,7 +289,7 @@ func (b *Broker) OnData(c *Conn, data []byte) error {
 			b.Net.log(WireEvent{Conn: c.ID, Dir: '>', Pkt: p, Raw: raw, Note: "LOST, write error"})
 			c.Break("fault: write error")
 			s.acc = nil
-			return ErrLinkDown
+			return b.Net.LinkDownErr()
 		case fWriteErrTransient:
 			b.Net.log(WireEvent{Conn: c.ID, Dir: '>', Pkt: p, Raw: raw, Note: "LOST, write error (link stays up)"})
 			s.acc = nil
@@ -329,12 +331,14 @@ func (b *Broker) OnData(c *Conn, data []byte) error {
 		b.process(c, s, p)
 		if k == fDupAck {
 			dup := append([]byte(nil), c.in[mark:]...)
-			// the duplicate arrives one (virtual) second later
-			vrt.NewTimer(int64(1e9), 0, func(t *vrt.Timer) {
-				if !c.eof && !c.closed {
-					c.InjectFromTimer(t, dup)
-				}
-			})
+			// two more copies of the answer arrive one and two (virtual) seconds later
+			for _, d := range []int64{1e9, 2e9} {
+				vrt.NewTimer(d, 0, func(t *vrt.Timer) {
+					if !c.eof && !c.closed {
+						c.InjectFromTimer(t, dup)
+					}
+				})
+			}
 		}
 		if k == fAckLost || k == fSilent {
 			// drop whatever was queued as response to this packet
